@@ -9,6 +9,10 @@ def strip_generics(s):
     """Remove `::<...>` generic-argument segments (balanced), keep `<T as Tr>`."""
     if "::<" not in s:
         return s
+    if "::<impl " in s:
+        s = _impl_segments(s)
+        if "::<" not in s:
+            return s
     out = []
     i = 0
     n = len(s)
@@ -30,6 +34,50 @@ def strip_generics(s):
         out.append(s[i])
         i += 1
     return "".join(out)
+
+
+def _impl_segments(s):
+    """`a::b::<impl Tr for Ty>::m` -> `<Ty as Tr>::m` (trait impls printed in their
+    defining module); inherent `::<impl Ty>` segments are left for the generic stripper."""
+    i = s.find("::<impl ")
+    while i != -1:
+        depth = 0
+        j = i + 2
+        while j < len(s):
+            c = s[j]
+            if c == "<":
+                depth += 1
+            elif c == ">" and s[j - 1] != "-":
+                depth -= 1
+                if depth == 0:
+                    break
+            j += 1
+        body = s[i + 8:j]
+        # split on the top-level " for "
+        d = 0
+        k = 0
+        pos = -1
+        while k < len(body):
+            ch = body[k]
+            if ch in "<([":
+                d += 1
+            elif ch in ">)]" and body[k - 1] != "-":
+                d -= 1
+            elif d == 0 and body.startswith(" for ", k):
+                pos = k
+                break
+            k += 1
+        if pos == -1:
+            i = s.find("::<impl ", j)
+            continue
+        tr, ty = body[:pos], body[pos + 5:]
+        # the prefix before `::<impl` is the defining module path: drop it (may be nested in `<.. as ..>`)
+        start = i
+        while start > 0 and (s[start - 1].isalnum() or s[start - 1] in "_:"):
+            start -= 1
+        s = s[:start] + "<" + ty + " as " + tr + ">" + s[j + 1:]
+        i = s.find("::<impl ", start + 1)
+    return s
 
 
 _TYARG = re.compile(r"<[^<>]*>")
